@@ -1396,11 +1396,14 @@ def histograms(rows):
     ops, types, aborted, kinds, sync = {}, {}, {}, {}, {}
     backends, ntx, crashin = {}, {}, {}
     lp_states, lp_out = {}, {}
+    retried, retry_cases = {}, {}
     heights = []
     nsteps = 0
     for r in rows:
         types[r["chan_type"]] = types.get(r["chan_type"], 0) + 1
         backends[r.get("backend", "bbolt")] = backends.get(r.get("backend", "bbolt"), 0) + 1
+        if r.get("kvdb_retry"):
+            retry_cases[r.get("backend", "bbolt")] = retry_cases.get(r.get("backend", "bbolt"), 0) + 1
         if r.get("aborted"):
             aborted[r["aborted"]] = aborted.get(r["aborted"], 0) + 1
         nsteps += len(r["steps"])
@@ -1417,6 +1420,11 @@ def histograms(rows):
             for p, n in sorted((ex.get("ntx_sync") or {}).items()):
                 k = "restart+resync(%s):%d" % (",".join(ex.get("sync_" + p) or []) or "-", n)
                 ntx[k] = ntx.get(k, 0) + 1
+            if ex.get("nretry"):
+                k = st["op"][0] if st["op"][0] != "deliver" else "deliver_" + str(ex.get("kind"))
+                retried[k] = retried.get(k, 0) + ex["nretry"]
+            for n in (ex.get("nretry_sync") or {}).values():
+                retried["restart+resync"] = retried.get("restart+resync", 0) + n
             if "ntx" in ex and st["res"] == "ok":
                 k = st["op"][0] if st["op"][0] != "deliver" else "deliver_" + str(ex.get("kind"))
                 k = "%s:%d" % (k, ex["ntx"])
@@ -1445,6 +1453,7 @@ def histograms(rows):
     return {"cases": len(rows), "steps": nsteps, "chan_types": types, "op_results": ops,
             "delivered_kinds": kinds, "resync_retransmissions": sync, "aborted": aborted,
             "liveprobe_states": lp_states, "liveprobe_answers": lp_out,
+            "kvdb_retry_cases": retry_cases, "retried_transactions": retried,
             "kvdb_backends": backends, "rw_transactions_per_call": ntx, "write_level_crashes": crashin,
             "min_final_height_median": heights[len(heights) // 2] if heights else None,
             "min_final_height_min": heights[0] if heights else None}
